@@ -76,6 +76,8 @@ impl Connection {
                         Err(_) => return Err(Error::CantReadFromSocket),
                         Ok(n) => n,
                     };
+                    #[cfg(rdest_verif)]
+                    crate::verif::buffered(&self.addr, self.buffer.len());
 
                     if n == 0 {
                         return match self.buffer.is_empty() {
@@ -99,6 +101,8 @@ impl Connection {
             Ok(frame) => {
                 let len = crs.position() as usize;
                 self.buffer.advance(len);
+                #[cfg(rdest_verif)]
+                crate::verif::decoded(&self.addr, &frame, len);
 
                 Ok(Some(frame))
             }
